@@ -385,7 +385,7 @@ func c19Run(out *vfOut, h c19Hist, forced []string) {
 				hs = append(hs, vfBytes(string(x[:])))
 			}
 			sort.Strings(hs)
-			cl := c19FloorDiv(it.expiry.Unix()-now+50, 100)
+			cl := c19FloorDiv(it.expiry.Unix()-now+25, 100)
 			items = append(items, vfPair(vfPair(vfBytes(p), vfZ(cl)), vfList("list N", hs)))
 		}
 		return vfList("list N * Z * list (list N)", items)
@@ -395,6 +395,14 @@ func c19Run(out *vfOut, h c19Hist, forced []string) {
 	nontrivial := false
 	sinceAdvance, sinceEvict := false, false
 	seen := map[string]bool{}
+	// Monitor state for "only until the entry expires": virtual clock and the
+	// instant each prefix was last answered by the service.
+	vnow := int64(0)
+	fetched := map[string]int64{}
+	live := func(n string) bool {
+		at, ok := fetched[hex.EncodeToString(c19Sum(n)[:2])]
+		return ok && vnow-at <= c19CacheTimeSec
+	}
 	for _, st := range h.Steps {
 		switch st.Kind {
 		case "advance":
@@ -409,11 +417,13 @@ func c19Run(out *vfOut, h c19Hist, forced []string) {
 				c.cache.Set([]byte(p), nd)
 			}
 			sinceAdvance = true
+			vnow += st.Secs
 			ops = append(ops, vfApp("CAdvance", vfZ(st.Secs)))
 		case "evict":
 			var ps []string
 			for _, p := range st.Evict {
 				c.cache.Del([]byte(p))
+				delete(fetched, hex.EncodeToString([]byte(p)))
 				ps = append(ps, vfBytes(p))
 			}
 			sinceEvict = true
@@ -481,6 +491,31 @@ func c19Run(out *vfOut, h c19Hist, forced []string) {
 						src = "cache"
 					}
 					fail("C19/verdict-"+strings.ReplaceAll(src, " ", "-"), fmt.Sprintf("Check(%q) = %v from %s, database says %v", st.Host, blocked, src, want))
+				}
+			}
+			// Monitor: the cache answers only from entries that are still alive.
+			if wf && !asked && err == nil && len(enum) > 0 {
+				if blocked {
+					any := false
+					for _, n := range enum {
+						any = any || live(n)
+					}
+					if !any {
+						fail("C19/stale-cache-answer", fmt.Sprintf("Check(%q) = blocked from cache although no entry for it is alive", st.Host))
+					}
+				} else {
+					for _, n := range enum {
+						if !live(n) {
+							fail("C19/stale-cache-answer", fmt.Sprintf("Check(%q) answered from cache although the entry for %q expired or was evicted", st.Host, n))
+						}
+					}
+				}
+			}
+			if asked && err == nil && !st.Fail {
+				for _, l := range strings.Split(strings.TrimSuffix(strings.TrimSuffix(lastQ, h.Suffix), "."), ".") {
+					if len(l) >= 4 {
+						fetched[l[:4]] = vnow
+					}
 				}
 			}
 			// Classes.
